@@ -295,7 +295,10 @@ fn run_shard(
                     }
                 } else {
                     let (detail, sig) = death_signature(&stderr, &status, &case);
-                    let r = if prop.death_is_violation() {
+                    // the worker may declare that whatever happens in the stage it is in is another
+                    // property's business (e.g. compiling the *source* in a bytecode check)
+                    let foreign = sig.get("not_this_property").and_then(|v| v.as_bool()).unwrap_or(false);
+                    let r = if prop.death_is_violation() && !foreign {
                         CaseResult::violation(crate::rng::hash_str(&case.to_string()), format!("{}\n--- stderr tail ---\n{}", detail, truncate(&tail, 3000)), sig)
                     } else {
                         CaseResult::inconclusive(0, detail)
